@@ -495,14 +495,20 @@ def no_traits(g):
 
 def contrib_stage(ctx):
     """contrib side of C11: rules whose analyze_traits live in contrib headers and that have no head in the engine model
-    (raw_string with content rules, rep_one_min_max, predicates, integer rules).  Implementation-side oracle only:
+    (raw_string with content rules, rep_one_min_max, predicates, integer rules) and rule names containing the delimiters of
+    the compiler's pretty-function text (the analysis keys its table by demangled name).  Implementation-side oracle only:
     harness/c11_contrib.cpp prints, per grammar, the real analyze< G >( -1 ) count and whether any run of the real parser
     exceeded the rule-attempt budget; 0 problems + a runaway is a violation."""
-    exe = vlib.build_cpp([os.path.join(vlib.VERIF, "harness", "c11_contrib.cpp")], "c11_contrib", flags=["-O1"], compiler="g++")
+    for cxx in ("g++", "clang++"):
+        _contrib_run(ctx, cxx)
+
+
+def _contrib_run(ctx, cxx):
+    exe = vlib.build_cpp([os.path.join(vlib.VERIF, "harness", "c11_contrib.cpp")], "c11_contrib_" + cxx, flags=["-O1"], compiler=cxx)
     rc, out = vlib.sh([exe, "3" if ctx.tier == "quick" else "4"], timeout=1800)
     rows = [l.split() for l in out.split("\n") if l.startswith("G ")]
-    if rc != 0 or len(rows) < 22:
-        ctx.diff("c11_contrib harness failed to run to completion", out[-1500:])
+    if rc != 0 or len(rows) < 30:
+        ctx.diff("c11_contrib harness (%s) failed to run to completion" % cxx, out[-1500:])
         return
     cases = 0
     flagged = loops = 0
@@ -512,8 +518,8 @@ def contrib_stage(ctx):
         loops += int(runaway)
         if int(problems) == 0 and int(runaway) == 1:
             ctx.violation("contrib grammar %s: analyze reports 0 problems but the parser runs away" % k,
-                          "contrib grammar #%s (harness/c11_contrib.cpp): analyze< G >( -1 ) = 0 but parsing input %s exceeds 100000 rule attempts (loop without progress)" % (k, first),
-                          {"stage": "contrib", "grammar_no": int(k), "input_hex": first})
+                          "contrib grammar #%s (harness/c11_contrib.cpp, %s): analyze< G >( -1 ) = 0 but parsing input %s exceeds 100000 rule attempts (loop without progress)" % (k, cxx, first),
+                          {"stage": "contrib", "grammar_no": int(k), "input_hex": first, "compiler": cxx})
     ctx.cover(evaluations=cases, distinct=len(rows), validated=0, contrib_grammars=len(rows), contrib_flagged=flagged, contrib_looping=loops)
 
 
